@@ -221,6 +221,16 @@ func genC01(g *Rng, tier string, emit func(Op)) {
 						emit(verifyDOp(kp.id, t2, ctx, nonce, false, "shift-disclosed", label))
 					}
 				}
+				// in-memory proofs (no wire format carries a sign): a disclosed value longer than the message
+				// length, negated. The attribute hash is over the magnitude, so -x meets the equation
+				// of a credential over x - and is a value the issuer did not sign
+				for _, i := range disclosed {
+					if a := cc.cred.Attributes[i]; a.BitLen() > int(pk.Params.Lm) && !toy {
+						t2 := cloneTree(tree)
+						t2.(T)["a_disclosed"].(T)[strconv.Itoa(i)] = I(new(big.Int).Neg(a))
+						emit(verifyDOp(kp.id, t2, ctx, nonce, false, "negated-oversized-disclosed", "reject").with("direct", true).with("nomodel", true).with("fkey", "C01/negated-oversized-disclosed"))
+					}
+				}
 				// in-memory proofs (no wire format): responses shifted by -k*ord are negative but still
 				// satisfy the verification equation; they lie outside the allowed range
 				for _, j := range sortedKeys(proof.AResponses) {
